@@ -596,6 +596,70 @@ pub fn explore(nfa: &Nfa) -> Result<Verdict, String> {
     }
 }
 
+/// Full determinisation of the plain (`ordered == false`) or cut (`ordered == true`) automaton
+/// as a canonical `dfa::Dfa` (minimised and renumbered like every exported `dfa`).
+fn det_dfa(nfa: &Nfa, ordered: bool) -> Result<dfa::Dfa, String> {
+    let mut seen = Stamp::new(nfa.states.len());
+    let mut lazy = Lazy::new(ordered);
+    let start = {
+        let cfg = if ordered {
+            nfa.start_cut(&mut seen)
+        } else {
+            nfa.start_plain(&mut seen)
+        };
+        lazy.intern(nfa, cfg)
+    };
+    let mut states: Vec<dfa::DfaState> = Vec::new();
+    let mut done = 0;
+    while done < lazy.cfgs.len() {
+        if lazy.cfgs.len() > MAX_PRODUCT_STATES {
+            return Err(format!(
+                "determinised automaton has more than {} states",
+                MAX_PRODUCT_STATES
+            ));
+        }
+        let mut edges: Vec<(u32, u32, usize)> = Vec::new();
+        for sym in 0..nfa.syms.len() {
+            let t = lazy.next(nfa, done, sym, &mut seen);
+            if lazy.cfgs[t].is_empty() {
+                continue;
+            }
+            for &(lo, hi) in &nfa.syms[sym].ranges {
+                edges.push((lo, hi, t));
+            }
+        }
+        edges.sort();
+        states.push(dfa::DfaState {
+            accept: lazy.accept[done],
+            edges,
+        });
+        done += 1;
+    }
+    // the empty configuration (if interned) has no edges to it: unreachable, removed by minimize
+    Ok(dfa::minimize(&dfa::Dfa { start, states }))
+}
+
+/// The plain subset automaton (language L of the pattern), so the language of this module's NFA
+/// can be compared with lalrpop's own construction.
+pub fn plain_dfa(nfa: &Nfa) -> Result<dfa::Dfa, String> {
+    det_dfa(nfa, false)
+}
+
+/// DFA of B = { w : the cut automaton accepts after consuming w } = the strings on which the
+/// anchored leftmost-first `find` returns the whole input.  The configuration of the cut automaton
+/// depends only on the consumed prefix and the leftmost-first match end is the last position at
+/// which it accepts, so on any text the run-time match of the pattern is the longest prefix in B.
+pub fn lf_dfa(nfa: &Nfa) -> Result<dfa::Dfa, String> {
+    det_dfa(nfa, true)
+}
+
+/// `lf_dfa` for a pattern (used by `regex2dfa --leftmost-first` and `facts`).
+pub fn build_lf_dfa(kind: PatternKind, pattern: &str) -> Result<dfa::Dfa, String> {
+    let (_, h) = runtime_hir(kind, pattern)?;
+    let nfa = Nfa::from_hir(&h)?;
+    lf_dfa(&nfa)
+}
+
 pub fn check(kind: PatternKind, pattern: &str) -> Result<Verdict, String> {
     let (_, h) = runtime_hir(kind, pattern)?;
     let nfa = Nfa::from_hir(&h)?;
@@ -626,6 +690,7 @@ pub fn check_json(kind: PatternKind, pattern: &str) -> Result<Value, String> {
     let (printed, h) = runtime_hir(kind, pattern)?;
     let nfa = Nfa::from_hir(&h)?;
     let v = explore(&nfa)?;
+    let lf = lf_dfa(&nfa)?;
     Ok(json!({
         "pattern": pattern,
         "kind": kind.as_str(),
@@ -636,6 +701,7 @@ pub fn check_json(kind: PatternKind, pattern: &str) -> Result<Value, String> {
         "longest_len": v.longest_len,
         "nfa_states": v.nfa_states,
         "product_states": v.product_states,
+        "lf_dfa": lf.to_json(),
     }))
 }
 
@@ -794,7 +860,17 @@ pub fn selftest(kind: PatternKind, pattern: &str, budget: usize) -> Result<Value
     let (printed, h) = runtime_hir(kind, pattern)?;
     let nfa = Nfa::from_hir(&h)?;
     let v = explore(&nfa)?;
-    let d = dfa::build(kind, pattern)?;
+    // reference for "longest": the exported (lalrpop-built) DFA; lalrpop's NFA rejects lazy
+    // operators, then this module's own subset automaton is the only reference
+    let own = plain_dfa(&nfa)?;
+    let (d, dfa_source, language_equal) = match dfa::build(kind, pattern) {
+        Ok(d) => {
+            let eq = d == own;
+            (d, "lalrpop".to_string(), json!(eq))
+        }
+        Err(e) => (own, format!("own subset construction (lalrpop: {})", e), Value::Null),
+    };
+    let lf_d = lf_dfa(&nfa)?;
     let runtime = format!("^({})", printed);
     let re = regex::Regex::new(&runtime).map_err(|e| format!("regex crate rejects {}: {}", runtime, e))?;
     let full = regex::Regex::new(&format!("^(?:{})$", printed))
@@ -805,6 +881,27 @@ pub fn selftest(kind: PatternKind, pattern: &str, budget: usize) -> Result<Value
             failures.push(msg);
         }
     };
+
+    if language_equal == json!(false) {
+        fail(
+            &mut failures,
+            "language of the ordered NFA differs from the exported DFA".to_string(),
+        );
+    }
+
+    // lf_dfa == dfa (as exported JSON text) exactly when the verdict is "equal"
+    let lf_same = serde_json::to_string(&lf_d.to_json()).unwrap()
+        == serde_json::to_string(&d.to_json()).unwrap();
+    if lf_same != v.equals_longest {
+        fail(
+            &mut failures,
+            format!(
+                "lf_dfa {} dfa although equals_longest is {}",
+                if lf_same { "==" } else { "!=" },
+                v.equals_longest
+            ),
+        );
+    }
 
     // 1. the witness, if any
     let mut witness_confirmed = Value::Null;
@@ -837,6 +934,7 @@ pub fn selftest(kind: PatternKind, pattern: &str, budget: usize) -> Result<Value
     let strings = test_strings(&nfa, &d, pattern, budget);
     let mut shorter_than_longest = 0usize;
     let mut matched = 0usize;
+    let mut in_b = 0usize;
     for s in &strings {
         let m = re.find(s);
         if let Some(m) = &m {
@@ -856,6 +954,33 @@ pub fn selftest(kind: PatternKind, pattern: &str, budget: usize) -> Result<Value
             fail(
                 &mut failures,
                 format!("{:?}: crate find end {:?} but model leftmost-first {:?}", s, crate_end, lf_b),
+            );
+        }
+        let whole = crate_end == Some(s.len());
+        if lf_d.accepts(s) != whole {
+            fail(
+                &mut failures,
+                format!(
+                    "{:?}: lf_dfa accepts = {} but crate find end {:?} (len {})",
+                    s,
+                    lf_d.accepts(s),
+                    crate_end,
+                    s.len()
+                ),
+            );
+        }
+        if whole {
+            in_b += 1;
+        }
+        if dfa_longest_prefix(&lf_d, s) != crate_end {
+            fail(
+                &mut failures,
+                format!(
+                    "{:?}: longest prefix in lf_dfa {:?} but crate find end {:?}",
+                    s,
+                    dfa_longest_prefix(&lf_d, s),
+                    crate_end
+                ),
             );
         }
         if longest_b != dfa_b {
@@ -887,8 +1012,13 @@ pub fn selftest(kind: PatternKind, pattern: &str, budget: usize) -> Result<Value
         "longest_len": v.longest_len,
         "witness_confirmed_by_regex_crate": witness_confirmed,
         "regex_crate_find_end_on_witness": crate_end_on_witness,
+        "longest_reference": dfa_source,
+        "nfa_language_equals_exported_dfa": language_equal,
         "strings_checked": strings.len(),
         "strings_matched": matched,
+        "strings_matched_whole": in_b,
+        "lf_dfa_equals_dfa": lf_same,
+        "lf_dfa_states": lf_d.states.len(),
         "strings_where_crate_is_shorter_than_longest": shorter_than_longest,
         "failures": failures,
         "ok": failures.is_empty(),
@@ -918,6 +1048,90 @@ mod tests {
         assert!(v(r"/\*[^*]*\*+(?:[^/*][^*]*\*+)*/").equals_longest);
         assert!(check(PatternKind::Regex, r"a\b").is_err());
         assert!(check(PatternKind::Literal, "(in|out)").unwrap().equals_longest);
+        // B of (in|out|inout) = {in, out}; of (inout|in|out) = the whole language
+        let b = build_lf_dfa(PatternKind::Regex, "(in|out|inout)").unwrap();
+        assert!(b.accepts("in") && b.accepts("out") && !b.accepts("inout") && !b.accepts("ino"));
+        assert_eq!(
+            build_lf_dfa(PatternKind::Regex, "(inout|in|out)").unwrap(),
+            dfa::build(PatternKind::Regex, "(inout|in|out)").unwrap()
+        );
+    }
+
+    #[test]
+    fn regex_crate_facts() {
+        // what the real matcher does on the examples of the task description
+        let end = |p: &str, t: &str| {
+            regex::Regex::new(&format!("^({})", p))
+                .unwrap()
+                .find(t)
+                .map(|m| m.end())
+        };
+        assert_eq!(end("(in|out|inout)", "inout"), Some(2));
+        assert_eq!(end("(inout|in|out)", "inout"), Some(5));
+        // `a` first, then the greedy optional group takes `bcd`: the whole text
+        assert_eq!(end("(a|ab)(c|bcd)?", "abcd"), Some(4));
+        assert_eq!(end("(a|ab)(c|bcd)?", "ab"), Some(1));
+        assert_eq!(end("(a|ab)(c|bcd)?", "abc"), Some(1));
+        assert_eq!(end("a*?b", "aaab"), Some(4));
+        assert_eq!(end("a*?", "aaa"), Some(0));
+        for (p, t) in [
+            ("(a|ab)(c|bcd)?", "abcd"),
+            ("(a|ab)(c|bcd)?", "ab"),
+            ("(a|ab)(c|bcd)?", "abc"),
+            ("a*?b", "aaab"),
+            ("a*?", "aaa"),
+        ] {
+            let (_, h) = runtime_hir(PatternKind::Regex, p).unwrap();
+            let nfa = Nfa::from_hir(&h).unwrap();
+            assert_eq!(nfa.simulate(t).0, end(p, t), "{} on {}", p, t);
+        }
+    }
+
+    fn random_pattern(rng: &mut Rng, depth: usize) -> String {
+        let atoms = ["a", "b", "c", "[ab]", "[^a]", "ab", "abc", ""];
+        if depth == 0 {
+            return atoms[rng.below(atoms.len())].to_string();
+        }
+        match rng.below(8) {
+            0 | 1 => {
+                let n = 2 + rng.below(2);
+                let parts: Vec<String> = (0..n).map(|_| random_pattern(rng, depth - 1)).collect();
+                format!("(?:{})", parts.join("|"))
+            }
+            2 | 3 => {
+                let n = 2 + rng.below(2);
+                (0..n).map(|_| random_pattern(rng, depth - 1)).collect()
+            }
+            4 | 5 => {
+                let ops = ["*", "+", "?", "*?", "+?", "??", "{2}", "{1,2}", "{0,2}?", "{1,}", "{2,}?"];
+                format!("(?:{}){}", random_pattern(rng, depth - 1), ops[rng.below(ops.len())])
+            }
+            6 => format!("({})", random_pattern(rng, depth - 1)),
+            _ => atoms[rng.below(atoms.len())].to_string(),
+        }
+    }
+
+    /// Random small patterns (nested alternations, greedy and lazy repetitions, empty branches):
+    /// model == regex crate on every test string, verdicts consistent, witnesses confirmed.
+    #[test]
+    fn fuzz_against_regex_crate() {
+        let mut rng = Rng::new("lfcheck fuzz");
+        let (mut n, mut unequal) = (0, 0);
+        while n < 1500 {
+            let p = random_pattern(&mut rng, 3);
+            if regex::Regex::new(&format!("^({})", p)).is_err() {
+                continue;
+            }
+            let r = selftest(PatternKind::Regex, &p, 400).unwrap();
+            assert!(r["ok"].as_bool().unwrap(), "{}: {}", p, r);
+            if r["equals_longest"] == json!(false) {
+                unequal += 1;
+            }
+            n += 1;
+        }
+        eprintln!("fuzz: {} patterns, {} with leftmost-first != longest", n, unequal);
+        // the generator must exercise both verdicts
+        assert!(unequal > 100 && unequal < 1400, "unequal = {}", unequal);
     }
 
     #[test]
